@@ -142,5 +142,150 @@ func init() {
 	}
 }
 
-var _ = reflect.TypeOf
-var _ = strings.Join
+// ---------------------------------------------------------------------------------------- C09
+func objReset(obj meta.Object) bool {
+	m := reflect.ValueOf(obj).MethodByName("Reset")
+	if !m.IsValid() || m.Type().NumIn() != 0 {
+		return false
+	}
+	m.Call(nil)
+	return true
+}
+
+// all writers of an object, as one comparable string
+func objWriteAll(obj meta.Object, name string) string {
+	var sb strings.Builder
+	if w, err := obj.WriteTL1BoxedGeneral(nil); err != nil {
+		sb.WriteString("1:writeerr")
+	} else {
+		sb.WriteString("1:" + hx(w))
+	}
+	if j, err := objWriteJSON(obj); err != nil {
+		sb.WriteString(" j:writeerr")
+	} else {
+		sb.WriteString(" j:" + hx(j))
+	}
+	w2, st := objWriteTL2(obj, name)
+	if st == "ok" {
+		sb.WriteString(" 2:" + hx(w2))
+	} else {
+		sb.WriteString(" 2:" + st)
+	}
+	return sb.String()
+}
+
+// one decode step into obj; returns verdict ("ok <consumed>" | "eof" | "reject" | "na")
+func objStep(obj meta.Object, name string, kind string, in []byte) string {
+	conv := func(tl2 bool) ([]byte, bool) { // valid TL1 boxed bytes -> the same value in TL2 / JSON, through a scratch object
+		tmp := factory.CreateObjectFromName(name)
+		if _, err := tmp.ReadTL1Boxed(in); err != nil {
+			return nil, false
+		}
+		if tl2 {
+			w, st := objWriteTL2(tmp, name)
+			return w, st == "ok"
+		}
+		w, err := objWriteJSON(tmp)
+		return w, err == nil
+	}
+	cut := func(b []byte, k string) []byte {
+		n, _ := strconv.Atoi(k)
+		if n > len(b) {
+			n = len(b)
+		}
+		return b[:n]
+	}
+	switch {
+	case kind == "1b":
+		rest, err := obj.ReadTL1Boxed(in)
+		if err != nil {
+			return cls(err)
+		}
+		return "ok " + strconv.Itoa(len(in)-len(rest))
+	case kind == "1r":
+		rest, err := obj.ReadTL1(in)
+		if err != nil {
+			return cls(err)
+		}
+		return "ok " + strconv.Itoa(len(in)-len(rest))
+	case kind == "2" || strings.HasPrefix(kind, "2t"):
+		b, ok := conv(true)
+		if !ok {
+			return "na"
+		}
+		if kind != "2" {
+			b = cut(b, kind[2:])
+		}
+		rest, err, has := objReadTL2(obj, b)
+		if !has {
+			return "na"
+		}
+		if err != nil {
+			return "reject"
+		}
+		return "ok " + strconv.Itoa(len(b)-len(rest))
+	case kind == "j" || strings.HasPrefix(kind, "jt"):
+		b, ok := conv(false)
+		if !ok {
+			return "na"
+		}
+		if kind != "j" {
+			b = cut(b, kind[2:])
+		}
+		if err := objReadJSON(obj, b); err != nil {
+			return "reject"
+		}
+		return "ok 0"
+	}
+	return "driver-error bad step " + kind
+}
+
+func init() {
+	// ohist <name> <step>...   step = R | <kind>:<hex>   kind = 1b | 1r (TL1 boxed / bare bytes as given)
+	//                                 | 2 | j | 2t<k> | jt<k> (the VALID TL1 boxed bytes <hex> converted to TL2 / JSON, cut to k bytes)
+	// One object is reused through the whole history; every step is also applied to a fresh object.
+	// result: one entry per step, separated by " ; ":
+	//    <verdict of the reused object>,<its TL1 boxed re-encoding | - >,<same | DIFF:<what>>
+	ops["ohist"] = func(f []string) string {
+		name := f[1]
+		obj := factory.CreateObjectFromName(name)
+		if obj == nil {
+			return "driver-error no object " + name
+		}
+		var out []string
+		for _, st := range f[2:] {
+			fresh := factory.CreateObjectFromName(name)
+			if st == "R" {
+				if !objReset(obj) {
+					out = append(out, "na,-,same")
+					continue
+				}
+				a, b := objWriteAll(obj, name), objWriteAll(fresh, name)
+				cmp := "same"
+				if a != b {
+					cmp = "DIFF:reset-write"
+				}
+				w1 := strings.TrimPrefix(strings.Fields(a)[0], "1:")
+				out = append(out, "R,"+w1+","+cmp)
+				continue
+			}
+			i := strings.IndexByte(st, ':')
+			kind, in := st[:i], unhex(st[i+1:])
+			v1 := objStep(obj, name, kind, in)
+			v2 := objStep(fresh, name, kind, in)
+			cmp := "same"
+			w1 := "-"
+			if v1 != v2 {
+				cmp = "DIFF:verdict:" + strings.ReplaceAll(v2, " ", "_")
+			} else if strings.HasPrefix(v1, "ok") {
+				a, b := objWriteAll(obj, name), objWriteAll(fresh, name)
+				if a != b {
+					cmp = "DIFF:write"
+				}
+				w1 = strings.TrimPrefix(strings.Fields(a)[0], "1:")
+			}
+			out = append(out, strings.ReplaceAll(v1, " ", "_")+","+w1+","+cmp)
+		}
+		return "ok " + strings.Join(out, " ; ")
+	}
+}
